@@ -631,7 +631,7 @@ func ruleP8e(c *Ctx, rels ...string) {
 // ---- A5 one accumulator per projection ------------------------------------------------------------------------------------------------------------
 
 func ruleA5(c *Ctx) {
-	c.Rule("A5", "every aggregate projection gets an accumulator of its own: an AliasAccPair.Acc assigned in the projection loop is created inside that loop iteration (accumulators are stateful and Reduce feeds each pair once per row, so a shared one counts every row once per projection)", 2)
+	c.Rule("A5", "every aggregate projection gets an accumulator of its own: an AliasAccPair.Acc assigned in the projection loop is created inside that loop iteration (accumulators are stateful and Reduce feeds each pair once per row, so a shared one counts every row once per projection)", 1)
 	n := 0
 	for _, fn := range c.srcFuncs("bql/planner") {
 		fi := c.fi(fn)
@@ -671,6 +671,35 @@ func ruleA5(c *Ctx) {
 				case ssa.Instruction:
 					if !l.blocks[x.Block().Index] {
 						bad = "the value created at " + c.pos(x.Pos()) + ", outside the loop"
+						return
+					}
+					// handed back by a same-package helper: the helper must create what it returns
+					var call *ssa.Call
+					idx := 0
+					switch y := x.(type) {
+					case *ssa.Call:
+						call = y
+					case *ssa.Extract:
+						call, _ = y.Tuple.(*ssa.Call)
+						idx = y.Index
+					}
+					if call == nil {
+						return
+					}
+					h := helperCallee(fn, &call.Call)
+					if h == nil {
+						return
+					}
+					for _, r := range c.returnsOf(h) {
+						rv := resultValues(r)
+						if idx >= len(rv) {
+							continue
+						}
+						switch z := stripConv(rv[idx]).(type) {
+						case *ssa.Const, *ssa.Call, *ssa.Alloc, *ssa.MakeMap, *ssa.MakeSlice:
+						default:
+							bad = "whatever " + funcName(h) + " returns at " + c.pos(r.Pos()) + " (" + truncate(c.term(z), 50) + "), which is not created there"
+						}
 					}
 				default:
 					bad = "a value that is not created in the loop (" + truncate(c.term(v), 60) + ")"
@@ -680,7 +709,7 @@ func ruleA5(c *Ctx) {
 			c.check(bad == "", fmt.Sprintf("%s gives each projection a fresh accumulator (line %d)", funcName(fn), c.Fset.Position(in.Pos()).Line), in.Pos(), "the accumulator is created inside the loop iteration", "the accumulator stored at "+c.pos(in.Pos())+" is "+bad+": several projections share one accumulator, which Reduce advances once per projection and row")
 		})
 	}
-	if n < 2 {
+	if n < 1 {
 		c.undecided("accumulators assigned in the projection loop", token.NoPos, "only %d found", n)
 	}
 }
@@ -1006,5 +1035,457 @@ func ruleMK1(c *Ctx) {
 	}
 	if n == 0 {
 		c.undecided("channel creation in bql/lexer", token.NoPos, "none found")
+	}
+}
+
+// ---- P5d the table is truncated by the limit stage only ----------------------------------------------------------------------------------------------
+
+func ruleP5d(c *Ctx) {
+	c.Rule("P5d", "rows are cut off by the limit stage alone: in the planner (*Table).Limit and (*Table).Truncate-like cut-offs are called only from queryPlan.limit, which Execute runs after ordering and HAVING (a cut-off inside an earlier stage removes rows that the later filter would have kept in favour of rows it drops)", 1)
+	lim := c.mustFunc("bql/table", "Table.Limit")
+	stage := c.mustFunc("bql/planner", "queryPlan.limit")
+	if lim == nil || stage == nil {
+		return
+	}
+	n := 0
+	for _, fn := range c.srcFuncs("bql/planner") {
+		allInstrs(fn, func(in ssa.Instruction) {
+			cc := callCommon(in)
+			if cc == nil || cc.StaticCallee() != lim {
+				return
+			}
+			n++
+			top := fn
+			for top.Parent() != nil {
+				top = top.Parent()
+			}
+			root := c.attributionRoot(top)
+			c.check(root == stage || top == stage, fmt.Sprintf("%s cuts the table off", funcName(top)), in.Pos(), "called from the limit stage", "Table.Limit is called at "+c.pos(in.Pos())+" from "+funcName(top)+", not from the limit stage: rows are cut off before the later stages (HAVING) have filtered them")
+		})
+	}
+	if n == 0 {
+		c.undecided("calls of Table.Limit in the planner", token.NoPos, "none found")
+	}
+}
+
+// ---- OK1 the three kinds of object are handled together ------------------------------------------------------------------------------------------------
+
+func ruleOK1(c *Ctx) {
+	c.Rule("OK1", "an object is a node, a predicate or a literal, and code that distinguishes kinds handles all three: a function of package triple that reads two of Object's kind fields reads the third as well (a literal object that falls through an if/else chain over nodes and predicates becomes a nil object or a nil triple further down)", 3)
+	obj := c.mustNamed("triple", "Object")
+	if obj == nil {
+		return
+	}
+	st, ok := obj.Underlying().(*types.Struct)
+	if !ok {
+		return
+	}
+	kinds := map[int]string{}
+	for i := 0; i < st.NumFields(); i++ {
+		if _, isPtr := st.Field(i).Type().(*types.Pointer); isPtr {
+			kinds[i] = st.Field(i).Name()
+		}
+	}
+	if len(kinds) != 3 {
+		c.undecided("triple.Object kind fields", token.NoPos, "expected three pointer fields, found %d", len(kinds))
+		return
+	}
+	for _, fn := range c.srcFuncs("triple") {
+		if fn.Parent() != nil {
+			continue
+		}
+		read := map[string]bool{}
+		withClosures(fn, func(f *ssa.Function) {
+			allInstrs(f, func(in ssa.Instruction) {
+				switch x := in.(type) {
+				case *ssa.FieldAddr:
+					if namedOf(x.X.Type()) == obj {
+						if k, ok := kinds[x.Field]; ok {
+							read[k] = true
+						}
+					}
+				case *ssa.Field:
+					if namedOf(x.X.Type()) == obj {
+						if k, ok := kinds[x.Field]; ok {
+							read[k] = true
+						}
+					}
+				}
+			})
+		})
+		if len(read) < 2 {
+			continue
+		}
+		var missing []string
+		for _, k := range kinds {
+			if !read[k] {
+				missing = append(missing, k)
+			}
+		}
+		sort.Strings(missing)
+		c.check(len(missing) == 0, funcName(fn)+" handles every kind of object", fn.Pos(), "reads all three kind fields", funcName(fn)+" distinguishes object kinds but never looks at field "+strings.Join(missing, ",")+": an object of that kind falls through")
+	}
+}
+
+// ---- E5 an evaluator is built only from a fully consumed expression ------------------------------------------------------------------------------------
+
+func ruleE5(c *Ctx) {
+	c.Rule("E5", "NewEvaluator accepts an expression only when it was consumed completely: its success return lies on an edge where the number of left-over tokens is known to be at most one (the one allowed left-over being the closing parenthesis) — otherwise `a > x and b = y` is accepted as `a > x`", 1)
+	fn := c.mustFunc("bql/semantic", "NewEvaluator")
+	if fn == nil {
+		return
+	}
+	fi := c.fi(fn)
+	n := 0
+	for _, r := range c.returnsOf(fn) {
+		rv := resultValues(r)
+		if !isNilConst(rv[len(rv)-1]) {
+			continue
+		}
+		n++
+		bounded := false
+		for _, ft := range fi.factsAt(r.Block()) {
+			bo, ok := ft.Cond.(*ssa.BinOp)
+			if !ok {
+				continue
+			}
+			call, ok := bo.X.(*ssa.Call)
+			if !ok || !isBuiltinCall(&call.Call, "len") {
+				continue
+			}
+			k, isC := constInt(bo.Y)
+			if !isC {
+				continue
+			}
+			switch {
+			case bo.Op == token.GTR && k <= 1 && !ft.Truth, bo.Op == token.GEQ && k <= 2 && !ft.Truth,
+				bo.Op == token.LEQ && k <= 1 && ft.Truth, bo.Op == token.LSS && k <= 2 && ft.Truth,
+				bo.Op == token.EQL && k <= 1 && ft.Truth:
+				bounded = true
+			}
+		}
+		c.check(bounded, fmt.Sprintf("NewEvaluator success return #%d is past the left-over test", n), r.Pos(), "at most one token is left over on this edge", "NewEvaluator returns an evaluator at "+c.pos(r.Pos())+" without the number of left-over tokens being bounded by one: a trailing `and …`/`or …` is accepted and ignored")
+	}
+	if n == 0 {
+		c.undecided("success returns of NewEvaluator", fn.Pos(), "none found")
+	}
+}
+
+// ---- P3d the verdict of a ground clause reaches the caller ----------------------------------------------------------------------------------------------
+
+func ruleP3d(c *Ctx) {
+	c.Rule("P3d", "whether a fully specified clause holds decides the pattern: every error-free return of processClause that the simpleExist call dominates hands back the flag simpleExist returned (a constant there makes the clause hold, or fail, whatever the graphs contain)", 1)
+	fn := c.mustFunc("bql/planner", "queryPlan.processClause")
+	if fn == nil {
+		return
+	}
+	fi := c.fi(fn)
+	n := 0
+	walkHelpers(fn, 1, func(inFn *ssa.Function, in ssa.Instruction, top ssa.Instruction) {
+		call, ok := in.(*ssa.Call)
+		if !ok || inFn != fn {
+			return
+		}
+		f := call.Call.StaticCallee()
+		if f == nil || fnName(f) != "simpleExist" {
+			return
+		}
+		var flag ssa.Value
+		for _, r := range *call.Referrers() {
+			if ex, ok := r.(*ssa.Extract); ok && ex.Index == 0 {
+				flag = ex
+			}
+		}
+		for _, r := range c.returnsOf(fn) {
+			rv := resultValues(r)
+			if len(rv) != 2 || !isNilConst(rv[1]) || !fi.instrDominates(in, r) {
+				continue
+			}
+			n++
+			v := rv[0]
+			if u, ok := v.(*ssa.UnOp); ok && u.Op == token.NOT {
+				v = u.X
+			}
+			c.check(flag != nil && v == flag, fmt.Sprintf("processClause hands back the verdict of simpleExist (return at line %d)", c.Fset.Position(r.Pos()).Line), r.Pos(), "returns the flag", "processClause returns "+truncate(c.term(rv[0]), 40)+" at "+c.pos(r.Pos())+" instead of the flag simpleExist computed: whether the ground clause holds no longer matters")
+		}
+	})
+	if n == 0 {
+		c.undecided("returns after simpleExist in processClause", fn.Pos(), "none found")
+	}
+}
+
+// ---- LK1 no method takes its receiver's lock twice -----------------------------------------------------------------------------------------------------
+
+func isSyncLockCall(cc *ssa.CallCommon) (kind string, mu ssa.Value) {
+	f := cc.StaticCallee()
+	if f == nil || f.Pkg == nil || f.Pkg.Pkg.Path() != "sync" || f.Signature.Recv() == nil || len(cc.Args) == 0 {
+		return "", nil
+	}
+	rt := derefType(f.Signature.Recv().Type())
+	n := namedOf(rt)
+	if n == nil || (n.Obj().Name() != "Mutex" && n.Obj().Name() != "RWMutex") {
+		return "", nil
+	}
+	switch f.Name() {
+	case "Lock", "RLock", "Unlock", "RUnlock":
+		return f.Name(), cc.Args[0]
+	}
+	return "", nil
+}
+
+// muFieldOfRecv: if mu is the address of a field of fn's receiver, the field index; else -1.
+func muFieldOfRecv(fn *ssa.Function, mu ssa.Value) int {
+	fa, ok := mu.(*ssa.FieldAddr)
+	if !ok || len(fn.Params) == 0 || fn.Signature.Recv() == nil {
+		return -1
+	}
+	if fa.X != ssa.Value(fn.Params[0]) {
+		return -1
+	}
+	return fa.Field
+}
+
+// acquiresRecvLock: does fn (or a method of the same receiver it calls directly, to the given depth) lock field idx of its receiver?
+func (c *Ctx) acquiresRecvLock(fn *ssa.Function, idx int, depth int, seen map[*ssa.Function]bool, writeOnly bool) string {
+	if fn == nil || fn.Blocks == nil || seen[fn] || depth < 0 {
+		return ""
+	}
+	seen[fn] = true
+	found := ""
+	allInstrs(fn, func(in ssa.Instruction) {
+		if found != "" {
+			return
+		}
+		if _, isGo := in.(*ssa.Go); isGo {
+			return
+		}
+		cc := callCommon(in)
+		if cc == nil {
+			return
+		}
+		if k, mu := isSyncLockCall(cc); (k == "Lock" || (k == "RLock" && !writeOnly)) && muFieldOfRecv(fn, mu) == idx {
+			found = k + " at " + c.pos(in.Pos())
+			return
+		}
+		if callee := cc.StaticCallee(); callee != nil && callee.Signature.Recv() != nil && len(cc.Args) > 0 && len(fn.Params) > 0 && cc.Args[0] == ssa.Value(fn.Params[0]) {
+			if w := c.acquiresRecvLock(callee, idx, depth-1, seen, writeOnly); w != "" {
+				found = w
+			}
+		}
+	})
+	return found
+}
+
+func ruleLK1(c *Ctx, rels ...string) {
+	c.Rule("LK1", "no method takes its receiver's lock a second time: while a method holds a mutex of its receiver (from Lock/RLock up to the matching Unlock, or to the end when the unlock is deferred) it calls no method of the same receiver that locks that mutex again — sync mutexes are not re-entrant, the second Lock never returns (a read lock taken again under a read lock is not reported: it is granted unless a writer is queued)", 5)
+	n := 0
+	for _, fn := range c.srcFuncs(rels...) {
+		if fn.Signature.Recv() == nil || len(fn.Params) == 0 || fn.Parent() != nil {
+			continue
+		}
+		fi := c.fi(fn)
+		type lk struct {
+			in   ssa.Instruction
+			kind string
+			idx  int
+		}
+		var locks, unlocks []lk
+		allInstrs(fn, func(in ssa.Instruction) {
+			if _, isDefer := in.(*ssa.Defer); isDefer {
+				return
+			}
+			if _, isGo := in.(*ssa.Go); isGo {
+				return
+			}
+			cc := callCommon(in)
+			if cc == nil {
+				return
+			}
+			k, mu := isSyncLockCall(cc)
+			idx := -1
+			if mu != nil {
+				idx = muFieldOfRecv(fn, mu)
+			}
+			if idx < 0 {
+				return
+			}
+			switch k {
+			case "Lock", "RLock":
+				locks = append(locks, lk{in, k, idx})
+			case "Unlock", "RUnlock":
+				unlocks = append(unlocks, lk{in, k, idx})
+			}
+		})
+		if len(locks) == 0 {
+			continue
+		}
+		allInstrs(fn, func(in ssa.Instruction) {
+			call, ok := in.(*ssa.Call)
+			if !ok {
+				return
+			}
+			callee := call.Call.StaticCallee()
+			if callee == nil || callee.Signature.Recv() == nil || len(call.Call.Args) == 0 || call.Call.Args[0] != ssa.Value(fn.Params[0]) {
+				return
+			}
+			for _, l := range locks {
+				if !fi.instrDominates(l.in, in) || l.in == in {
+					continue
+				}
+				released := false
+				for _, u := range unlocks {
+					if u.idx == l.idx && fi.instrDominates(l.in, u.in) && fi.instrDominates(u.in, in) {
+						released = true
+					}
+				}
+				if released {
+					continue
+				}
+				n++
+				// a read lock taken again under a read lock succeeds unless a writer is waiting; with one goroutine
+				// only a write lock under a read lock, or anything under a write lock, can never be granted
+				w := c.acquiresRecvLock(callee, l.idx, 2, map[*ssa.Function]bool{}, l.kind == "RLock")
+				c.check(w == "", fmt.Sprintf("%s calls %s with its lock held (line %d)", funcName(fn), callee.Name(), c.Fset.Position(in.Pos()).Line), in.Pos(), "the callee does not take the receiver's lock", fmt.Sprintf("%s holds its receiver's lock (%s at %s) and calls %s, which locks the same mutex (%s): the call never returns", funcName(fn), l.kind, c.pos(l.in.Pos()), callee.Name(), w))
+				break
+			}
+		})
+	}
+	if n < 5 {
+		c.undecided("calls made with the receiver's lock held", token.NoPos, "only %d found", n)
+	}
+}
+
+// ---- L6e several senders are not served by a single receive --------------------------------------------------------------------------------------------
+
+// refersToChan: does value v (inside fn or one of its closures) denote the channel made by mk in the top function?
+func refersToChan(v ssa.Value, mk *ssa.MakeChan, depth int) bool {
+	if v == nil || depth > 5 {
+		return false
+	}
+	switch x := v.(type) {
+	case *ssa.MakeChan:
+		return x == mk
+	case *ssa.ChangeType:
+		return refersToChan(x.X, mk, depth+1)
+	case *ssa.FreeVar:
+		return refersToChan(closureBinding(x), mk, depth+1)
+	case *ssa.UnOp:
+		if x.Op == token.MUL {
+			cell := x.X
+			if fv, ok := cell.(*ssa.FreeVar); ok {
+				cell = closureBinding(fv)
+			}
+			if a, ok := cell.(*ssa.Alloc); ok {
+				for _, r := range *a.Referrers() {
+					if st, ok := r.(*ssa.Store); ok && st.Addr == ssa.Value(a) && refersToChan(st.Val, mk, depth+1) {
+						return true
+					}
+				}
+			}
+		}
+	case *ssa.Parameter:
+		// bound at a `go f(ch)` site: handled by the caller of this function through the call's arguments
+	}
+	return false
+}
+
+func ruleL6e(c *Ctx, rels ...string) {
+	c.Rule("L6e", "several senders are not served by a single receive: when goroutines started in a loop send on an unbuffered channel made by the spawning function, that function receives from the channel in a loop (until it is closed or all have reported), not once — after a single receive every further sender blocks forever and the goroutines outlive the call", 1)
+	n := 0
+	for _, fn := range c.srcFuncs(rels...) {
+		if fn.Parent() != nil {
+			continue
+		}
+		fi := c.fi(fn)
+		allInstrs(fn, func(in ssa.Instruction) {
+			mk, ok := in.(*ssa.MakeChan)
+			if !ok {
+				return
+			}
+			if k, isC := constInt(mk.Size); !isC || k != 0 {
+				return
+			}
+			// goroutines started in a loop of fn whose body sends on mk
+			var spawn ssa.Instruction
+			allInstrs(fn, func(i2 ssa.Instruction) {
+				g, ok := i2.(*ssa.Go)
+				if !ok || fi.innermostLoop(i2.Block().Index) == nil {
+					return
+				}
+				var body *ssa.Function
+				if mc, ok := g.Call.Value.(*ssa.MakeClosure); ok {
+					body, _ = mc.Fn.(*ssa.Function)
+				} else if f := g.Call.StaticCallee(); f != nil {
+					body = f
+				}
+				if body == nil || body.Blocks == nil {
+					return
+				}
+				sends := false
+				withClosures(body, func(f *ssa.Function) {
+					allInstrs(f, func(i3 ssa.Instruction) {
+						if s, ok := i3.(*ssa.Send); ok {
+							if refersToChan(s.Chan, mk, 0) {
+								sends = true
+							}
+							if p, ok := s.Chan.(*ssa.Parameter); ok && f == body {
+								for i, bp := range body.Params {
+									if bp == p && i < len(g.Call.Args) && refersToChan(g.Call.Args[i], mk, 0) {
+										sends = true
+									}
+								}
+							}
+						}
+					})
+				})
+				if sends {
+					spawn = i2
+				}
+			})
+			if spawn == nil {
+				return
+			}
+			n++
+			// receives in fn (and its non-goroutine closures)
+			looped, single := false, ""
+			withClosures(fn, func(f *ssa.Function) {
+				ffi := c.fi(f)
+				allInstrs(f, func(i2 ssa.Instruction) {
+					var ch ssa.Value
+					switch x := i2.(type) {
+					case *ssa.UnOp:
+						if x.Op == token.ARROW {
+							ch = x.X
+						}
+					case *ssa.Select:
+						for _, st := range x.States {
+							if st.Dir == types.RecvOnly && refersToChan(st.Chan, mk, 0) {
+								ch = st.Chan
+							}
+						}
+					}
+					if ch == nil || !refersToChan(ch, mk, 0) {
+						return
+					}
+					if ffi.innermostLoop(i2.Block().Index) != nil {
+						looped = true
+					} else {
+						single = c.pos(i2.Pos())
+					}
+				})
+			})
+			key := fmt.Sprintf("%s serves every sender of the channel made at line %d", funcName(fn), c.Fset.Position(in.Pos()).Line)
+			switch {
+			case looped:
+				c.ok(key, in.Pos(), "received in a loop")
+			case single != "":
+				c.bad(key, in.Pos(), "goroutines started in a loop at %s send on the unbuffered channel made at %s, but it is received only once, at %s: every sender after the first blocks forever and outlives the call", c.pos(spawn.Pos()), c.pos(in.Pos()), single)
+			default:
+				c.ok(key, in.Pos(), "not received in this function (handed on)")
+			}
+		})
+	}
+	if n == 0 {
+		c.trivial("unbuffered channels fed by goroutines started in a loop", token.NoPos, "none in %v", rels)
 	}
 }
